@@ -8,6 +8,16 @@ NOTE = ("Trusted: Lean 4.33 kernel (axioms per theorem audited, allowed propext/
 CORR = ("Correspondence: Tie A certificates (every reachable state x 256 bytes x both anchorings of every real build, checked by the "
         "Lean-proved certOk against the ideal automaton / the noncontiguous NFA) and Tie B differential lines (harness vs acdrv).")
 CHECKS = {
+ "C05": ("proof",
+         "C05_transparent(_fold): for every pattern list without the empty pattern, every SOUND prefilter function (None => no occurrence "
+         "in the span; PossibleStartOfMatch(i) => no occurrence starts before i; Match(m) => m is THE answer) and every input (non-"
+         "earliest, or standard kind) the engine with the prefilter returns exactly what the engine without it returns - proved through "
+         "the specification by a restart argument, not by state equivalence. C05_{memmem,start,rare}_sound(_fold), C05_packed_sound, "
+         "C05_builder_sound: the models of the real prefilters (builder add/build decision tree for ANY byte-frequency table, "
+         "memchr/memmem as least index) are sound, including the case-insensitive ones; C05_builder_gates. Tie: the real prefilters are "
+         "queried through Automaton::prefilter().find_in and compared (variant chosen + candidate) with the model on every span; "
+         "prefilter(true) vs the prefilter-free model end to end; constants and BYTE_FREQUENCIES extracted from the source on every run.",
+         "5 C05", "Lean proof of prefilter transparency + soundness of each modelled prefilter + differential on candidates and searches"),
  "C19": ("proof",
          "C19_transitions (at most one next_state call per byte of the span, whatever the prefilter does), C19_step_potential / "
          "hops_potential (every failure hop is paid by a decrease of trie depth), C19_fails_le / C19_search (failure-link traversals "
